@@ -413,7 +413,7 @@ def survivors_signature(rx_typed, tx_typed, good, junk_sig):
         return None
     if all(not good(blk) for blk in survivors):
         return junk_sig
-    return SIG_MULTI
+    return SIG_MULTI if len(rx_typed) >= 2 else None
 
 
 def rx_class(item):
